@@ -26,6 +26,7 @@
 #include "mpt_c.hpp"
 
 #include <dlfcn.h>
+#include <sanitizer/asan_interface.h>
 
 using namespace vp;
 using namespace mpt;
@@ -162,6 +163,44 @@ static std::string drawValue(Ctx &c, size_t max) {
 #endif
 static const bool kNumberOnRoot = C10_NUMBER_ON_ROOT;
 
+// Round 4 oracles that fail on the tree as it is (f81f200); each is switched on once its repair is committed:
+//  C10_POISON_ITEM_SLACK      notes/patches/C10-7-config-item-query-scans-size.patch
+//  C10_ROOT_REMOVED_IS_GONE   notes/patches/C10-8-root-remove-releases-the-element.patch
+//  C10_VIEW_OVERLONG_ELEMENT  notes/patches/C10-9-config-assign-parent-fixup-on-failure.patch
+#ifndef C10_POISON_ITEM_SLACK
+#define C10_POISON_ITEM_SLACK 1
+#endif
+#ifndef C10_ROOT_REMOVED_IS_GONE
+#define C10_ROOT_REMOVED_IS_GONE 1
+#endif
+#ifndef C10_VIEW_OVERLONG_ELEMENT
+#define C10_VIEW_OVERLONG_ELEMENT 1
+#endif
+
+// C view of the element store of mpt::config::root: { v-table, unique_array<config_item> }, an item is
+// { unique_array<config_item> children, metatype *value, identifier name }, arrays are struct buffer + elements
+struct CItem { CBuf *elements; metatype *value; unsigned char name[sizeof(identifier)]; };
+static_assert(sizeof(CItem) == sizeof(config_item), "config_item layout");
+static_assert(sizeof(config::root) == 2 * sizeof(void *), "config::root layout");
+// While a query runs, the allocated but unused tail [used, size) of every element array is poisoned: a query has no
+// business there (the slots are uninitialised memory; whatever they hold could pass for an element). Only around
+// read-only calls: insertion legitimately writes into the tail.
+struct SlackGuard {
+  std::vector<std::pair<void *, size_t>> areas;
+  static void collect(CBuf *b, std::vector<std::pair<void *, size_t>> &out, int depth) {
+    if (!b || depth > 8 || b->size < b->used || b->used % sizeof(CItem)) return;
+    if (b->size > b->used) out.push_back({b->data() + b->used, b->size - b->used});
+    CItem *it = reinterpret_cast<CItem *>(b->data());
+    for (size_t i = 0; i < b->used / sizeof(CItem); i++) collect(it[i].elements, out, depth + 1);
+  }
+  explicit SlackGuard(void *rootraw) {
+    if (!rootraw || !C10_POISON_ITEM_SLACK) return;
+    collect(reinterpret_cast<CBuf **>(rootraw)[1], areas, 0);
+    for (auto &a : areas) __asan_poison_memory_region(a.first, a.second);
+  }
+  ~SlackGuard() { for (auto &a : areas) __asan_unpoison_memory_region(a.first, a.second); }
+};
+
 // a sub-tree view on the base path `bs`. lead > 0: the descriptor handed to mpt_config_global is the remainder of a longer
 // path ("zq.zq.<bs>") whose first `lead` elements were consumed with mpt_path_next, i.e. path.off > 0 (lead is derived
 // from values the case has drawn already, no draw of its own)
@@ -182,6 +221,7 @@ static metatype *openView(Ctx &c, const std::string &bs, char sep, unsigned lead
 // ---- one configuration under test ----------------------------------------------------------------------------------
 struct Store {
   config *cfg = 0;     // interface of the whole store
+  void *rootraw = 0;   // storage of the private mpt::config::root (scenario root)
   bool global = false;
   Map model;
   std::set<Key> touched;  // every path that was assigned, removed or used as a view base
@@ -214,6 +254,7 @@ static int textHandler(void *ctx, convertable *val, const collection *) {
 static bool readKey(Ctx &c, Store &s, const Key &k, unsigned route, std::string &out, std::string &how) {
   const char *text = (const char *)(uintptr_t)0x1;  // poison: must be overwritten on success
   int r;
+  SlackGuard guard(s.rootraw);
   char sep = sepFor(c, k);
   if (!sep) { how = "skipped (every separator occurs in the key)"; return false; }
   std::string ps = join(k, sep);
@@ -364,6 +405,40 @@ static void step(Ctx &c, Store &s, std::vector<Key> &pool) {
     // draw): the text-only stores refuse it (mpt_meta_new: "supports text content only"), and a refusal must change nothing,
     // including which paths exist (DESIGN sect. 4). Only on the whole store: an assignment through a view creates the
     // view's base elements before it looks at the value.
+    // a third of the assignments through a view appends an element of 65535 bytes to the relative path (again decided by the
+    // salt byte): a name cannot be that long (mpt_identifier_set), so the assignment fails after the elements in front of it
+    // were created. The store must stay sound: the children of the view's base name it as their parent (looked at through
+    // the view's node interface), and the usual follow-up - removing what the failed call left behind - works.
+    bool overlong = C10_VIEW_OVERLONG_ELEMENT && via == 3 && !v.empty() && strchr("v/y ", v[0]) != 0;
+    if (overlong) {
+      Key k2 = k;
+      k2.push_back(std::string(65535, 'H'));
+      std::string rs2 = rs + sep + k2.back();
+      size_t nbase = k.size() - split(rs, sep).size();
+      r = mpt_config_set(target, rs2.c_str(), vp, usesep, 0);
+      c.logf("  assign %s = '%s'[%zu] via %s (sep '%c') -> %d", show(k2).c_str(), brief(v).c_str(), v.size(), route, sep, r);
+      s.touched.insert(k2);
+      if (r >= 0) { s.model[k2] = v; c.label("assign:overlong-accepted"); }
+      else c.label("assign:overlong-refused");
+      node *bn = 0;
+      int nr = mvt(view)->convert((convertable *)view, TypeNodePtr, &bn);
+      VP_CHECK(c, nr >= 0 && bn, "view-null", "view does not convert to its base node (%d)", nr);
+      size_t steps = 0;
+      for (node *ch = bn->children; ch && ++steps < 1000; ch = ch->next)
+        VP_CHECK(c, ch->parent == bn, "view-base-child-parent", "after the %s assignment of %s through a view on %s, child %zu of the base element does not name it as parent", r < 0 ? "failed" : "accepted", show(k2).c_str(),
+                 show(Key(k.begin(), k.begin() + nbase)).c_str(), steps);
+      if (r < 0) {
+        // follow-up: remove the first element below the base (whole-store interface)
+        Key k3(k.begin(), k.begin() + nbase + 1);
+        std::string p3 = join(k3, sep);
+        int rr = mpt_config_set(s.cfg, p3.c_str(), 0, sep, 0);
+        c.logf("  remove %s via mpt_config_set (sep '%c') -> %d", show(k3).c_str(), sep, rr);
+        for (auto it = s.model.begin(); it != s.model.end();) { if (hasPrefix(it->first, k3)) it = s.model.erase(it); else ++it; }
+        for (auto it = s.nontext.begin(); it != s.nontext.end();) { if (hasPrefix(*it, k3)) it = s.nontext.erase(it); else ++it; }
+        s.touched.insert(k3);
+        s.armed = true;
+      }
+    } else {
     bool number = via == 1 && !v.empty() && strchr("v/y ", v[0]) != 0 && (s.global || kNumberOnRoot);  // first byte of the text = salt % 12 in "v.w/x:y=z 01": every third
     if (number) {
       double num = 0.25 * (double)v.size() + 1.5;
@@ -405,6 +480,7 @@ static void step(Ctx &c, Store &s, std::vector<Key> &pool) {
     s.nontext.erase(k);
     c.label("assign:ok");
     }
+    }
   } else if (op == 1) {
     size_t below = 0;
     for (auto &kv : s.model) if (hasPrefix(kv.first, k)) ++below;
@@ -414,6 +490,13 @@ static void step(Ctx &c, Store &s, std::vector<Key> &pool) {
     c.logf("  remove %s via %s (sep '%c') -> %d   (%zu values at or below)", show(k).c_str(), route, sep, r, below);
     for (auto it = s.model.begin(); it != s.model.end();) { if (hasPrefix(it->first, k)) it = s.model.erase(it); else ++it; }
     for (auto it = s.nontext.begin(); it != s.nontext.end();) { if (hasPrefix(*it, k)) it = s.nontext.erase(it); else ++it; }
+    // "removing a path removes it": the element itself is gone, also for a query that only asks whether it is there
+    if (s.global || C10_ROOT_REMOVED_IS_GONE) {
+      std::set<Key> ask;
+      ask.insert(k);
+      std::map<Key, int> ex = existence(s.cfg, ask);
+      VP_CHECK(c, ex[k] != 1, "removed-still-exists", "%s was removed via %s (%d) but a query for its existence still finds it", show(k).c_str(), route, r);
+    }
     c.label("remove");
     if (below > 1 || (below == 1 && !s.model.empty())) { c.label("remove:inner-or-sibling"); s.armed = true; }
     if (!below) c.label("remove:nothing-there");
@@ -457,6 +540,7 @@ static void run_store(Ctx &c, bool global) {
     memset(raw, 0, sizeof raw);
     g_cxx.ctor(raw);
     s.cfg = reinterpret_cast<config *>(raw);
+    s.rootraw = raw;
     s.valmax = 700;
     c.label("scenario:root");
   }
